@@ -99,6 +99,7 @@ def nLandmarks (c : Config) : Int := landmark_count c.N c.ratio
 
 /-- order `n` of the (square) eigenproblem, requested number of eigenvectors, skip, generalized? -/
 structure EigProblem where
+  tag : String
   n : Int
   want : Int
   skip : Int
@@ -107,13 +108,13 @@ structure EigProblem where
 
 def eigProblem (c : Config) : Option EigProblem :=
   match c.method with
-  | .klle | .kltsa | .hlle => some ⟨c.N, c.d, skip_SmallestEigenvalues, true, false⟩
-  | .le => some ⟨c.N, c.d, gen_sparse_diag_skip, true, true⟩
-  | .npe | .lltsa | .lpp => some ⟨c.D, c.d, gen_dense_dense_skip, true, true⟩
-  | .mds | .isomap | .kpca => some ⟨c.N, c.d, skip_LargestEigenvalues, false, false⟩
-  | .dm => some ⟨c.N, dm_requested c.d, skip_LargestEigenvalues, false, false⟩
-  | .pca => some ⟨c.D, c.d, skip_LargestEigenvalues, false, false⟩
-  | .lmds | .lisomap => some ⟨nLandmarks c, c.d, skip_LargestEigenvalues, false, false⟩
+  | .klle | .kltsa | .hlle => some ⟨"dense", c.N, c.d, skip_SmallestEigenvalues, true, false⟩
+  | .le => some ⟨"gen", c.N, c.d, gen_sparse_diag_skip, true, true⟩
+  | .npe | .lltsa | .lpp => some ⟨"gen_linear", c.D, c.d, gen_dense_dense_skip, true, true⟩
+  | .mds | .isomap | .kpca => some ⟨"dense", c.N, c.d, skip_LargestEigenvalues, false, false⟩
+  | .dm => some ⟨"dense", c.N, dm_requested c.d, skip_LargestEigenvalues, false, false⟩
+  | .pca => some ⟨"pca", c.D, c.d, skip_LargestEigenvalues, false, false⟩
+  | .lmds | .lisomap => some ⟨"landmark", nLandmarks c, c.d, skip_LargestEigenvalues, false, false⟩
   | _ => none
 
 /-- the sites of the dense / generalized solver that fall outside the `n x n` eigenvector matrix or the
@@ -124,22 +125,22 @@ def solverSites (c : Config) (p : EigProblem) : List String :=
     (if p.smallest then
       (if decide (InCount (rand_smallest_leftCols p.want p.skip) (rand_sketch_cols p.want p.skip)) &&
           decide (InCount (rand_smallest_rightCols p.want p.skip) (rand_smallest_leftCols p.want p.skip))
-        then [] else ["rand_smallest_cols"])
+        then [] else [p.tag ++ "_rand_cols"])
     else
-      (if decide (InCount (rand_largest_rightCols p.want) (rand_sketch_cols p.want p.skip)) then [] else ["rand_largest_cols"]))
+      (if decide (InCount (rand_largest_rightCols p.want) (rand_sketch_cols p.want p.skip)) then [] else [p.tag ++ "_rand_cols"]))
   else if p.generalized then
     (if decide (InCount (gen_smallest_leftCols p.want p.skip) p.n) &&
         decide (InCount (gen_smallest_rightCols p.want p.skip) (gen_smallest_leftCols p.want p.skip))
-      then [] else ["gen_smallest_cols"]) ++
-    (if decide (InBlock (gen_segment_start p.want p.skip) (gen_segment_len p.want p.skip) p.n) then [] else ["gen_segment"])
+      then [] else [p.tag ++ "_cols"]) ++
+    (if decide (InBlock (gen_segment_start p.want p.skip) (gen_segment_len p.want p.skip) p.n) then [] else [p.tag ++ "_segment"])
   else if p.smallest then
     (if decide (InCount (dense_smallest_leftCols p.want p.skip) p.n) &&
         decide (InCount (dense_smallest_rightCols p.want p.skip) (dense_smallest_leftCols p.want p.skip))
-      then [] else ["dense_smallest_cols"]) ++
-    (if decide (InBlock (dense_segment_start p.want p.skip) (dense_segment_len p.want p.skip) p.n) then [] else ["dense_segment"])
+      then [] else [p.tag ++ "_cols"]) ++
+    (if decide (InBlock (dense_segment_start p.want p.skip) (dense_segment_len p.want p.skip) p.n) then [] else [p.tag ++ "_segment"])
   else
     (if decide (InCount (dense_largest_rightCols p.want) p.n) && decide (InCount (dense_largest_tail p.want) p.n)
-      then [] else ["dense_largest_cols"])
+      then [] else [p.tag ++ "_cols"])
 
 /-- t-SNE: the quadtree / force buffers (θ > 0) and the exact error evaluation (θ = 0) against the `N x no_dims` map -/
 def tsneSites (c : Config) : List String :=
